@@ -614,10 +614,21 @@ func (f *facts) term() string {
 		compressRep(append([]string{}, f.sigs...)), compressZ(f.ins), compressOuts(f.outA, f.outC, f.outH), compressZ(ids))
 }
 
-func observe(t *coin.Transaction) (string, string, string, string) {
-	var e1, e2 error
-	p1 := Guard(func() { e1 = t.Verify() })
-	p2 := Guard(func() { e2 = t.VerifyUnsigned() })
+// observe runs a HISTORY of verifier calls on the same value and on a re-deserialised copy
+// (the model is a pure function: every call must give the model's verdict for that call alone,
+// whatever was verified before). Returns the Coq list of (signed?, result), a printable trace,
+// and the last verdict of Verify / VerifyUnsigned.
+var histories = [][]string{
+	{"V", "U"}, {"U", "V"}, {"U", "V"}, {"U", "V"}, {"U", "V", "U"}, {"U", "Vc"}, {"Uc", "V"}, {"Vc", "U"}, {"V", "V"}, {"U", "U", "V"}, {"V", "Uc", "V"},
+}
+
+func observe(t *coin.Transaction, pattern []string) (string, string, string, string) {
+	cp := t
+	if b, err := t.Serialize(); err == nil {
+		if d, err := coin.DeserializeTransaction(b); err == nil {
+			cp = &d
+		}
+	}
 	cls := func(p bool, e error) string {
 		if p {
 			return "PANIC"
@@ -627,7 +638,31 @@ func observe(t *coin.Transaction) (string, string, string, string) {
 		}
 		return errText(e)
 	}
-	return resErr(p1, e1), resErr(p2, e2), cls(p1, e1), cls(p2, e2)
+	var items, trace []string
+	lastV, lastU := "", ""
+	for _, c := range pattern {
+		x := t
+		if strings.HasSuffix(c, "c") {
+			x = cp
+		}
+		signed := c[0] == 'V'
+		var e error
+		p := Guard(func() {
+			if signed {
+				e = x.Verify()
+			} else {
+				e = x.VerifyUnsigned()
+			}
+		})
+		items = append(items, Tuple(B(signed), resErr(p, e)))
+		trace = append(trace, c+":"+cls(p, e))
+		if signed {
+			lastV = cls(p, e)
+		} else {
+			lastU = cls(p, e)
+		}
+	}
+	return List(items), strings.Join(trace, " "), lastV, lastU
 }
 
 // ---- big transactions (boundary sizes of the three arrays)
@@ -854,24 +889,50 @@ func run(args []string) error {
 
 	// ---- group txn (+ vis)
 	var txns, vis []string
+	var pending *tcase
 	for i := 0; i < n; i++ {
-		c := g.txnCase()
+		c := pending
+		pending = nil
+		if c == nil {
+			c = g.txnCase()
+		}
 		t := &c.txn
 		before, _ := t.Serialize()
 		tab := idtab{}
 		fa := g.collect(t, tab)
-		os, ou, cs, cu := observe(t)
+		calls, trace, cs, cu := observe(t, histories[r.Intn(len(histories))])
 		after, _ := t.Serialize()
 		if !bytes.Equal(before, after) {
 			return fmt.Errorf("Verify modified the transaction")
 		}
-		txns = append(txns, Tuple(fa.term(), os, ou))
+		txns = append(txns, Tuple(fa.term(), calls))
+		// follow-up: the next case is this transaction with one signature nulled / one signature byte
+		// changed / nothing changed, verified right after it
+		if (cs == "ok" || cu == "ok") && len(t.Sigs) > 0 && len(c.labels) < 8 && r.Chance(25) {
+			f := &tcase{ux: c.ux, owner: c.owner}
+			f.txn = *t
+			f.txn.Sigs = append([]cipher.Sig{}, t.Sigs...)
+			f.txn.In = append([]cipher.SHA256{}, t.In...)
+			f.txn.Out = append([]coin.TransactionOutput{}, t.Out...)
+			k := r.Intn(len(f.txn.Sigs))
+			switch r.Intn(3) {
+			case 0:
+				f.txn.Sigs[k] = cipher.Sig{}
+				f.labels = append(append([]string{}, c.labels...), "then-signull")
+			case 1:
+				f.txn.Sigs[k][r.Intn(65)] ^= byte(1 << uint(r.Intn(8)))
+				f.labels = append(append([]string{}, c.labels...), "then-sigflip")
+			default:
+				f.labels = append(append([]string{}, c.labels...), "then-same")
+			}
+			pending = f
+		}
 		lab := strings.Join(c.labels, "+")
 		hex := ""
 		if before != nil {
 			hex = fmt.Sprintf("%x", before)
 		}
-		caseJSON["txn"] = append(caseJSON["txn"], map[string]interface{}{"idx": i, "n": n, "mutations": lab, "verify": cs, "verify_unsigned": cu,
+		caseJSON["txn"] = append(caseJSON["txn"], map[string]interface{}{"idx": i, "n": n, "mutations": lab, "calls": trace, "verify": cs, "verify_unsigned": cu,
 			"n_in": len(t.In), "n_out": len(t.Out), "n_sigs": len(t.Sigs), "txn_hex": hex})
 		o.Count(fmt.Sprint("txn", lab, cs, cu, len(t.In), len(t.Out)), true)
 		hist.Add("Verify:" + cs)
@@ -899,8 +960,12 @@ func run(args []string) error {
 					vl = "ux-long"
 				}
 			}
-			var ev error
+			var ev, ev2 error
 			pv := Guard(func() { ev = t.VerifyInputSignatures(ux) })
+			pv2 := Guard(func() { ev2 = t.VerifyInputSignatures(ux) }) // and again: same answer
+			if pv2 != pv || errText(ev2) != errText(ev) {
+				return fmt.Errorf("VerifyInputSignatures gave two different answers on the same arguments")
+			}
 			uxs := make([]string, len(ux))
 			for k := range ux {
 				uxs[k] = Tuple(tab.id(ux[k].Hash()), fmt.Sprint(g.aid(ux[k].Body.Address)))
@@ -922,8 +987,8 @@ func run(args []string) error {
 	for _, k := range thresholdFamily(thorough) {
 		t, label := g.bigCase(k)
 		fa := g.collect(t, idtab{})
-		os, ou, cs, cu := observe(t)
-		bigs = append(bigs, Tuple(fa.term(), os, ou))
+		calls, _, cs, cu := observe(t, []string{"U", "V", "V", "U"})
+		bigs = append(bigs, Tuple(fa.term(), calls))
 		caseJSON["big"] = append(caseJSON["big"], map[string]interface{}{"idx": len(bigs) - 1, "n": n, "shape": label, "verify": cs, "verify_unsigned": cu})
 		o.Count(fmt.Sprint("big", label), true)
 		hist.Add("big:" + label + ":" + cs + "/" + cu)
@@ -968,14 +1033,14 @@ func run(args []string) error {
 
 	if sel != nil && sel.group == "vis" {
 		// a VerifyInputSignatures case refers to its transaction by index: keep them all
-		o.Def("cases_txn", "txn * res error * res error", txns)
+		o.Def("cases_txn", "txn * list (bool * res error)", txns)
 	} else {
-		o.Def("cases_txn", "txn * res error * res error", sel.keep("txn", txns))
+		o.Def("cases_txn", "txn * list (bool * res error)", sel.keep("txn", txns))
 	}
-	o.Def("cases_big", "txn * res error * res error", sel.keep("big", bigs))
+	o.Def("cases_big", "txn * list (bool * res error)", sel.keep("big", bigs))
 	o.Def("cases_vis", "Z * list (Z * Z) * res error", sel.keep("vis", vis))
 	o.Def("cases_dec", "Z * bool * bool * bool * bool * Z * Z * Z * list Z * list Z", sel.keep("dec", decs))
-	o.Side["rule"] = "generated transactions: a valid signed / unsigned / partially signed transaction spending generated unspent outputs, then 0-3 mutations (no inputs, no outputs, signature count, duplicate input, duplicate / near-duplicate output, zero-coin output, coin sum around 2^64, type, length field, inner hash, corrupted / null / swapped / copied / random / high-s / wrong-key signatures), header recomputed after most content mutations so that later rules are reached; boundary array sizes 65535/65536; byte strings: valid encodings, every truncation, appended bytes, length-prefix surgery, byte flips, random. Every case counts (distinct by mutation labels + verdicts / by byte string)."
+	o.Side["rule"] = "verification histories (each verifier called several times in varying order on the same value and on a re-deserialised copy; a quarter of the accepted transactions are followed by the same transaction with one signature nulled / one signature byte flipped / unchanged; every single call must give the verdict of the pure model) over generated transactions: a valid signed / unsigned / partially signed transaction spending generated unspent outputs, then 0-3 mutations (no inputs, no outputs, signature count, duplicate input, duplicate / near-duplicate output, zero-coin output, coin sum around 2^64, type, length field, inner hash, corrupted / null / swapped / copied / random / high-s / wrong-key signatures), header recomputed after most content mutations so that later rules are reached; boundary array sizes 65535/65536; byte strings: valid encodings, every truncation, appended bytes, length-prefix surgery, byte flips, random. Every case counts (distinct by mutation labels + verdicts / by byte string)."
 	o.Side["distribution"] = hist.Sorted()
 	o.Side["samples"] = samples
 	o.Side["cases"] = sel.keepJSON(caseJSON)
